@@ -153,6 +153,30 @@ pub fn minimise_and_write(bin: &str, case: &mut Case, viol: &Violation, prop: &s
     let budget_evals = 260u32;
     let budget_time = Duration::from_secs(120);
     let from = serde_json::json!({"threads": case.threads.len(), "ops": case.op_count(), "insts": case.insts.len()});
+    if case.free_run {
+        // unscheduled fallback run: no schedule to pin or shrink; confirm in fresh processes (a few tries, the OS decides
+        // the interleaving) and write the case as it is
+        for _ in 0..6 {
+            let r = run_child(bin, case, tmp, 120);
+            if let Some(d) = has_class(prop, &r, &class) {
+                let rf = ReplayFile {
+                    property: prop.to_string(),
+                    engine: "native-free-run".into(),
+                    flavour: label.to_string(),
+                    verif_seed: seed,
+                    run_index: idx,
+                    violation: Violation { class: class.clone(), detail: d, thread: viol.thread, op: viol.op },
+                    minimised_from: from.clone(),
+                    minimised_to: serde_json::json!({"note": "not minimised: free-running fallback (the simulated schedule stalled on a lock inside the code under test)"}),
+                    event_log_hash: 0,
+                    case: case.clone(),
+                };
+                std::fs::write(path, serde_json::to_string_pretty(&rf).unwrap()).map_err(|e| e.to_string())?;
+                return Ok(());
+            }
+        }
+        return Err(format!("class {} not shown by six free-running re-runs", class));
+    }
     let first = run_child(bin, case, tmp, 120);
     let Some(detail0) = has_class(prop, &first, &class) else {
         // still write what we have (unminimised), so that the finding is not lost, but say so
@@ -347,7 +371,16 @@ pub fn replay(path: &str) -> i32 {
     };
     let me = std::env::current_exe().unwrap().to_string_lossy().to_string();
     let tmp = format!("{}/target/tmp/replay-{}", crate::home(), std::process::id());
-    let r = run_child(&me, &rf.case, &tmp, 600);
+    let mut r = run_child(&me, &rf.case, &tmp, 600);
+    if rf.case.free_run {
+        // the OS decides the interleaving of a free-running fallback case: a few tries
+        for _ in 0..9 {
+            if classes(&rf.property, &r).iter().any(|(c, _)| *c == rf.violation.class) {
+                break;
+            }
+            r = run_child(&me, &rf.case, &tmp, 600);
+        }
+    }
     let _ = std::fs::remove_dir_all(&tmp);
     let cl = classes(&rf.property, &r);
     let lh = if let ChildRes::Out(o) = &r { o.log_hash } else { 0 };
